@@ -49,7 +49,7 @@ NEEDS4 = {
 }
 FIRST = {"C01/A": "missed", "C01/B": "missed", "C02/A": "detected", "C02/B": "missed", "C03/A": "missed", "C03/B": "detected", "C04/A": "detected", "C04/B": "detected", "C05/A": "missed", "C05/B": "detected",
          "C06/A": "detected", "C06/B": "detected", "C07/A": "missed", "C07/B": "missed", "C08/A": "detected", "C08/B": "undecided", "C09/A": "missed", "C09/B": "detected", "C10/A": "detected", "C10/B": "missed",
-         "C11/A": "detected", "C11/B": "missed", "C12/A": "detected", "C12/B": "missed", "C13/A": "detected", "C13/B": "missed", "C14/A": "detected", "C14/B": "undecided", "C15/A": "detected", "C15/B": "undecided",
+         "C11/A": "detected", "C11/B": "missed", "C12/A": "detected", "C12/B": "missed", "C13/A": "detected", "C13/B": "missed", "C14/A": "detected", "C14/B": "undecided", "C15/A": "undecided", "C15/B": "undecided",
          "C16/A": "missed", "C16/B": "missed", "C17/A": "detected", "C17/B": "undecided", "C18/A": "detected", "C18/B": "detected", "C19/A": "missed", "C19/B": "missed", "C20/A": "missed", "C20/B": "missed"}
 first = FIRST
 head = subprocess.run(["git", "-C", "/repo", "rev-parse", "--short", "HEAD"], stdout=subprocess.PIPE, text=True).stdout.strip()
